@@ -319,6 +319,8 @@ def run(tier, seed):
     par.pmap(work_history, hist, stats=st, chunk=4)
     from props import delivery as _DL
     par.pmap(_DL.work, _DL.tasks(tier), extra=(('terrapin',),), stats=st, chunk=12)
+    from props import decor as _DC
+    par.pmap(_DC.work, _DC.tasks(tier), extra=(('terrapin',),), stats=st, chunk=8)
     vcases = []
     for case in H.pick(cs, seed, 30 if tier == 'quick' else 150):
         role, marker, ch, cb, et = case[:5]
